@@ -6,7 +6,7 @@
    (radians); within_sky t u v  <->  great-circle angle(u, v) <= t  (C09_within_sky_is_angle). *)
 From Coq Require Import Reals QArith List.
 From EsVerif.Common Require Import Base.
-From EsVerif.C09 Require Import Gen Model Spec Geometry Proofs Rows Isometry Exec ExecProofs.
+From EsVerif.C09 Require Import Gen Model Spec Geometry Proofs Rows Isometry AsFound Exec ExecProofs.
 Open Scope R_scope.
 
 (* ---------------------------------------------------------------- meaning of the measured statements *)
@@ -99,6 +99,16 @@ Theorem C09_chain_equals_direct : forall b a d,
    let pd := euler_R (euler_row b 6) a d in
    within_sky tol5 (unit_deg (fst pd) (snd pd)) (unit_deg (fst p2) (snd p2))).
 Proof. exact rows_chain_angles. Qed.
+
+(* ---------------------------------------------------------------- the repaired defect, for the record *)
+(* the as-found latitude formula (arcsin of the third component; shape flag false) fails the statement
+   at the documented galactic pole: eq2gal(192.85948, 27.12825) is returned more than 1e-5 degree away
+   from the direction of the rotated vector -- a property of the formula over the reals, not of rounding.
+   With the flag of the repaired tree (true) C09_agree_with_documented_constants holds at every point. *)
+Theorem C09_asfound_arcsin_pole_refuted :
+  let p := euler_R_gen false pole_row doc_alphaG doc_deltaG in
+  ~ within_sky tol5 (unit_deg (fst p) (snd p)) (euler_dir pole_row doc_alphaG doc_deltaG).
+Proof. exact asfound_pole_refuted. Qed.
 
 (* ---------------------------------------------------------------- rotate *)
 Theorem C09_rotate_range : forall phi theta psi ra dec,
